@@ -100,6 +100,22 @@ def gen_c01(tier, seed):
             lst = [gen.content_for_mode(r, r.choice(('numeric', 'alphanumeric', 'byte', 'kanji')), r.randint(1, 9)) for _ in range(k)]
             add(call('make', lst, micro=r.choice((None, False)), eci=False))
             add(call('make_qr', lst, eci=True))
+    # (d') ECI headers at the capacity boundaries (sizing = what is written), per-part encodings
+    for c in gen.eci_boundary_calls(call, not thorough):
+        add(c)
+    # (d'') content that ends in a line feed / carriage return / NUL (regular expressions with $ instead of \\Z accept a trailing \\n)
+    for base in ('123', 'AB', 'abc', '\u70b9\u8317', gen.kanji(r, 5), gen.digits(r, 8), gen.alnum(r, 7)):
+        for tail in ('\n', '\r', '\r\n', '\x00', '\n\n', ' '):
+            for kw in ({}, {'micro': False}):
+                add(call('make', base + tail, **kw))
+                try:
+                    add(call('make', (base + tail).encode('shift_jis'), **kw))
+                except UnicodeError:
+                    pass
+    for m, base in (('numeric', '123'), ('alphanumeric', 'AB1'), ('kanji', '\u70b9\u8317'), ('hanzi', '\u4e66\u8bfb')):
+        for tail in ('\n', '\r', '\x00'):
+            add(call('make', base + tail, mode=m))
+            add(call('make', base + tail, mode=m, micro=False))
     # (e) hanzi
     for n in list(range(1, 13)) + [20, 50]:
         for e in QR_LEVELS if thorough else ('L', 'Q'):
@@ -365,6 +381,17 @@ def gen_c02(tier, seed):
         for micro in (None, False):
             calls.append(call('make', c, micro=micro))
     calls.append(call('make', ['12', 'ab']))
+    # the reported mode of multi-segment symbols: every non-empty subset of the four automatic modes, both orders, and a hanzi part
+    import itertools
+    items = ('123', 'AB', 'abc', '\u70b9\u8317')
+    for k in range(1, 5):
+        for sub in itertools.combinations(items, k):
+            calls.append(call('make', list(sub)))
+            if k > 1:
+                calls.append(call('make', list(reversed(sub))))
+                calls.append(call('make', list(sub) + [('\u4e66\u8bfb', 13)]))
+    calls.append(call('make', [('\u4e66\u8bfb', 13)]))
+    calls.append(call('make', [('\u4e66\u8bfb', 13), ('\u4e66', 13)]))
     return calls
 
 
